@@ -17,7 +17,7 @@
    (invalid UTF-8) byte of the front end Text/Utf8.v - true of every Go string. *)
 From Coq Require Import List NArith ZArith Permutation.
 From Dials Require Import Base.Outcome Base.Runes Text.ParseInt Text.Quote Text.Split
-  Text.FlagHelpers Text.ParseString Text.ParseFloat Text.IntGrammar Text.ParseDuration Text.ParseIntProofs Text.IntGrammarProofs Text.DurationProofs Text.Utf8 Text.Utf8Proofs Text.QuoteProofs Text.SplitProofs.
+  Text.FlagHelpers Text.ParseString Text.ParseFloat Text.IntGrammar Text.ParseDuration Text.ParseIntProofs Text.IntGrammarProofs Text.DurationProofs Text.Utf8 Text.Utf8Proofs Text.NamedProofs Text.QuoteProofs Text.SplitProofs.
 Import ListNotations.
 Open Scope N_scope.
 
@@ -152,6 +152,20 @@ Theorem map_roundtrip : forall isp, (forall r, r < 128 -> isp r = ascii_print r)
   exists m', map_ss_parse isp (map_ss_string isp m) = Ok m' /\ Permutation m' m.
 Proof. exact map_roundtrip_l. Qed.
 
+(* slices of string KIND that are not exactly []string - []Label with type Label string, and
+   type Names []string - go through parse.String's element loop; their members are parsed as
+   strings and are not trimmed, so the quoted form round-trips every string, blanks at the ends
+   included; the third conjunct is the exact []string type through the same entry point *)
+Theorem named_slice_roundtrip : forall isp, (forall r, r < 128 -> isp r = ascii_print r) ->
+  forall l, Forall str_valid l ->
+  ParseString.parse_string isp true true (ParseString.TSlice (ParseString.TNamed ParseString.TStr)) (slice_string isp l)
+    = Ok (ParseString.VList (map ParseString.VStr l)) /\
+  ParseString.parse_string isp true true (ParseString.TNamed (ParseString.TSlice ParseString.TStr)) (slice_string isp l)
+    = Ok (ParseString.VList (map ParseString.VStr l)) /\
+  ParseString.parse_string isp true true (ParseString.TSlice ParseString.TStr) (slice_string isp l)
+    = Ok (ParseString.VList (map ParseString.VStr l)).
+Proof. exact named_slice_roundtrip_l. Qed.
+
 (* guard (finding 11): no value slice is empty; its complement is refuted by
    SplitProofs.mss_roundtrip_refuted and is known-finding class C15/3 *)
 Theorem mss_roundtrip : forall isp, (forall r, r < 128 -> isp r = ascii_print r) ->
@@ -218,6 +232,7 @@ Print Assumptions every_go_string_is_valid.
 Print Assumptions utf8_decode_encode.
 Print Assumptions quote_unquote.
 Print Assumptions slice_roundtrip.
+Print Assumptions named_slice_roundtrip.
 Print Assumptions set_roundtrip.
 Print Assumptions map_roundtrip.
 Print Assumptions mss_roundtrip.
